@@ -113,10 +113,11 @@ impl ActTask for Step {
             let mut count = 0;
             for task in tasks.iter() {
                 if task.state().is_pending() && task.is_ready() {
-                    // resume task
+                    // resume task through the queue: executing it here would review this step again
+                    // from inside this review, and the step would report its completion twice
                     task.set_state(TaskState::Running);
                     ctx.runtime.scher().emit_task_event(task)?;
-                    task.exec(ctx)?;
+                    ctx.runtime.push(task);
                     return Ok(false);
                 }
                 if task.state().is_completed() {
